@@ -70,6 +70,16 @@ var interpolateTypeCastMapping = map[tree.Path]interp.Cast{
 	iPath("configs", tree.PathMatchAll, "external"):                toBoolean,
 }
 
+func init() {
+	// typed attributes the schema also admits as strings, so that a value given through a variable is converted
+	interpolateTypeCastMapping[servicePath("blkio_config", "weight")] = toInt
+	interpolateTypeCastMapping[servicePath("blkio_config", "weight_device", tree.PathMatchList, "weight")] = toInt
+	interpolateTypeCastMapping[servicePath("build", "ulimits", tree.PathMatchAll)] = toInt
+	interpolateTypeCastMapping[servicePath("build", "ulimits", tree.PathMatchAll, "hard")] = toInt
+	interpolateTypeCastMapping[servicePath("build", "ulimits", tree.PathMatchAll, "soft")] = toInt
+	interpolateTypeCastMapping[servicePath("volumes", tree.PathMatchList, "tmpfs", "mode")] = toInt
+}
+
 func iPath(parts ...string) tree.Path {
 	return tree.NewPath(parts...)
 }
